@@ -848,6 +848,23 @@ class SymBytes:
     def translate(self, table):
         return mkbytes(table[b] for b in self.items)
 
+    def _case(self, lo, hi, delta):
+        out = []
+        for b in self.items:
+            if isinstance(b, int):
+                out.append(b + delta if lo <= b <= hi else b)
+            else:
+                w = b.w
+                t = b.t
+                out.append(SymInt.make(z3.If(z3.And(t >= lo, t <= hi), t + delta, t), w, 0, 255))
+        return mkbytes(out)
+
+    def lower(self):
+        return self._case(65, 90, 32)
+
+    def upper(self):
+        return self._case(97, 122, -32)
+
 
 def sym_index(items, i):
     """items[i] for symbolic i: if-then-else selection, IndexError side forked"""
